@@ -267,9 +267,9 @@ fn classify_collapse_accept(t: &Tuple, pre: &Document, offered: &str) -> Option<
     if reduced(&neutral) == reduced(&t.user) || reduced(&neutral) == reduced(&t.owner) {
         return None;
     }
-    let mut c = pre.clone();
-    let before = cmp::digest_doc(&c);
-    if matches!(try_decrypt(&mut c, &neutral), Ok(Err(_))) && cmp::digest_doc(&c) == before {
+    // "rejected" is judged at the authentication step: whether decrypt with a wrongly derived AES key
+    // fails on the first object (document unchanged) or later is a matter of chance
+    if matches!(util::guard(|| pre.authenticate_password(&neutral)), Ok(Err(_))) {
         Some("nonlatin-password-collapse")
     } else {
         None
